@@ -300,10 +300,14 @@ def sim_sleep(d):
 
 # ----------------------------------------------------------------- aiuti.asyncio
 class AsyncioSeams:
-    """Rebinds the module-level names of aiuti.asyncio for one run."""
+    """Rebinds the module-level names of aiuti.asyncio for one run.
 
-    NAMES = ('Lock', 'ThreadPoolExecutor', 'sleep', 'queue', '_CROSS_LOOP_POOL',
-             '_LOOP_LOCKS_CREATE_LOCK', '_LOOP_LOCKS')
+    Besides the named seams, *every* module-level threading.Lock becomes a fresh SimLock and every
+    module-level ALL_CAPS private dict/set registry is replaced by an empty one of the same type,
+    so trees that add or lack such globals (fixes, mutants) need no harness change.
+    """
+
+    NAMES = ('Lock', 'ThreadPoolExecutor', 'sleep', 'queue', '_CROSS_LOOP_POOL')
 
     def __init__(self, mod):
         self.mod = mod
@@ -312,14 +316,20 @@ class AsyncioSeams:
     def install(self):
         m = self.mod
         self.saved = {n: getattr(m, n) for n in self.NAMES}
+        lock_type = type(_RealLock())
+        for n, v in list(vars(m).items()):
+            if isinstance(v, lock_type):
+                self.saved[n] = v
+                setattr(m, n, SimLock())
+            elif n.startswith('_') and n.isupper() and type(v) in (dict, set):
+                self.saved[n] = v
+                setattr(m, n, type(v)())
         SimPool.registry = []
         m.Lock = SimLock
         m.ThreadPoolExecutor = SimPool
         m.sleep = sim_sleep
         m.queue = QueueModule
         m._CROSS_LOOP_POOL = SimPool(32)
-        m._LOOP_LOCKS_CREATE_LOCK = SimLock()
-        m._LOOP_LOCKS = {}
         return self
 
     def restore(self):
